@@ -40,7 +40,7 @@ func NewArray(
 	size := 1
 	for i := len(dimensions) - 1; 0 <= i; i-- {
 		a.sizes[i] = size
-		if ArrayMaxDimension < dimensions[i] {
+		if dimensions[i] < 0 || ArrayMaxDimension < dimensions[i] {
 			TypePanic(NewScope(), 0, "dimension", Fixnum(dimensions[i]),
 				fmt.Sprintf("positive fixnum less than %d", ArrayMaxDimension))
 		}
@@ -73,6 +73,9 @@ func (obj *Array) calcAndSet(list List) {
 			obj.sizes[i] = size
 			size *= len(list)
 			if i < len(obj.dims)-1 {
+				if len(list) == 0 {
+					ErrorPanic(NewScope(), 0, "Invalid data for a %d dimension array. %s", len(obj.dims), orig)
+				}
 				if list, ok = list[0].(List); !ok {
 					ErrorPanic(NewScope(), 0, "Invalid data for a %d dimension array. %s", len(obj.dims), list)
 				}
